@@ -26,7 +26,10 @@ EXTENDS Integers, Sequences, FiniteSets, TLC, Json
 CONSTANTS TN,        \* type names in use, subset of {"R","A","B","C"}; "R" is the operand's type
           MaxFields, \* 1 or 2
           QChoices,  \* set of possible QT values, e.g. {{}, {"B"}}
-          PlainTypes \* types of the plain field x, e.g. {"int"} or {"int","string"}
+          PlainTypes, \* types of the plain field x, e.g. {"int"} or {"int","string"}
+          Naming     \* "std": the member x is unexported and the type names (= names of embedded fields) are exported;
+                     \* "dual": the member is exported (realised as X) and the type names are not (a, b, c): then an embedded
+                     \* field of a type of the other package cannot be *named* from outside, but promotion through it still works
 
 Rank(t) == CASE t = "R" -> 4 [] t = "A" -> 3 [] t = "B" -> 2 [] OTHER -> 1
 Plain == {[emb |-> FALSE, name |-> "x", ty |-> t, to |-> "", ptr |-> FALSE] : t \in PlainTypes}
@@ -42,7 +45,7 @@ TypeDefs(from) == {[fields |-> fs, meth |-> m] : fs \in FSeqs(from), m \in {"non
                   \ {d \in [fields : FSeqs(from), meth : {"val", "ptr"}] : HasPlainX(d.fields)}
 
 (* ---------- the lookup ---------- *)
-Visible(Q, t, sel) == sel # "x" \/ t \notin Q
+Visible(Q, t, sel) == IF sel = "x" THEN (Naming = "dual" \/ t \notin Q) ELSE (Naming = "std" \/ t \notin Q)
 Children(G, e) == {[t |-> G[e.t].fields[i].to, path |-> Append(e.path, i), ind |-> e.ind \/ G[e.t].fields[i].ptr, mult |-> e.mult]
                      : i \in {j \in 1..Len(G[e.t].fields) : G[e.t].fields[j].emb}}
 Consolidate(S) == {LET grp == {e \in S : e.t = t}  rep == CHOOSE e \in grp : TRUE IN
@@ -72,9 +75,11 @@ Init == g \in [R : Defs("R"), A : Defs("A"), B : Defs("B"), C : Defs("C")] /\ q 
 Next == UNCHANGED <<g, q>>
 Spec == Init /\ [][Next]_<<g, q>>
 \* sampling of the large families: one long behaviour, a fresh random graph per step (tlc -simulate num=1 -depth N)
-RandG == [R |-> RandomElement(Defs("R")), A |-> RandomElement(Defs("A")), B |-> RandomElement(Defs("B")), C |-> RandomElement(Defs("C"))]
-SimInit == g = RandG /\ q = RandomElement(QChoices)
-SimNext == g' = RandG /\ q' = RandomElement(QChoices)
+\* (an operator with a parameter: TLC evaluates a definition without parameters once and may reuse the value, which made the
+\*  "random" graphs of a behaviour repeat)
+RandGOf(x) == [R |-> RandomElement(Defs("R")), A |-> RandomElement(Defs("A")), B |-> RandomElement(Defs("B")), C |-> RandomElement(Defs("C"))]
+SimInit == g = RandGOf(0) /\ q = RandomElement(QChoices)
+SimNext == g' = RandGOf(g) /\ q' = RandomElement(QChoices)
 Sels == {"x"} \cup (TN \ {"R"})
 Res == [s \in Sels |-> [f \in {"v", "a", "p"} |-> Lookup(g, q, f = "p", f = "a", s)]]
 \* model-level laws of the transcription
@@ -83,5 +88,5 @@ Laws ==
   /\ \A s \in Sels : (Res[s]["a"].k \in {"field", "method"} /\ Res[s]["p"].k \in {"field", "method"})
         => Res[s]["a"].owner = Res[s]["p"].owner                                        \* a pointer operand finds the same member
   /\ \A s \in Sels : Res[s]["a"].k # "needaddr" /\ Res[s]["p"].k # "needaddr"
-Emit == PrintT(ToJson([g |-> g, q |-> q, res |-> Res]))
+Emit == PrintT(ToJson([g |-> g, q |-> q, res |-> Res, naming |-> Naming]))
 =============================================================================
